@@ -30,6 +30,20 @@ thread_local! {
     static POOL_INSTALLED: Cell<usize> = const { Cell::new(0) };
 }
 
+/// number of parallel sections in flight in the current run: a parallel call made from inside a
+/// pool task (nested parallelism) runs sequentially on that task - rayon would run it on the same
+/// pool, and spawning scoped tasks from a scoped task is not something the simulator needs.
+/// Reset by `verif::set_pool` at the start of every run (a run that was aborted in the middle of a
+/// section never decrements).
+static SECTIONS_IN_FLIGHT: std::sync::atomic::AtomicUsize = std::sync::atomic::AtomicUsize::new(0);
+
+struct SectionGuard;
+impl Drop for SectionGuard {
+    fn drop(&mut self) {
+        SECTIONS_IN_FLIGHT.fetch_sub(1, StdOrdering::Relaxed);
+    }
+}
+
 /// statistics for the evidence files (process-wide, std atomics: no scheduling points)
 pub static PAR_CALLS: AtomicU64 = AtomicU64::new(0);
 pub static PAR_CALLS_PARALLEL: AtomicU64 = AtomicU64::new(0);
@@ -54,6 +68,7 @@ pub mod verif {
         super::POOL_OVERRIDE.with(|c| c.set(n));
         super::POOL_GLOBAL.with(|c| c.set(0));
         super::POOL_INSTALLED.with(|c| c.set(0));
+        super::SECTIONS_IN_FLIGHT.store(0, std::sync::atomic::Ordering::Relaxed);
     }
     pub fn stats() -> (u64, u64, u64, u64) {
         use std::sync::atomic::Ordering::Relaxed;
@@ -172,6 +187,13 @@ where
     if pool <= 1 || !in_simulation() {
         return items.into_iter().map(f).collect();
     }
+    if SECTIONS_IN_FLIGHT.fetch_add(1, StdOrdering::Relaxed) > 0 {
+        // nested: run on the calling task
+        let _g = SectionGuard;
+        probe("rayon_nested_sections_run_inline", 1);
+        return items.into_iter().map(f).collect();
+    }
+    let _g = SectionGuard;
     PAR_CALLS_PARALLEL.fetch_add(1, StdOrdering::Relaxed);
     probe("rayon_parallel_maps", 1);
     probe("rayon_parallel_items", n as u64);
@@ -214,11 +236,13 @@ where
     RA: Send,
     RB: Send,
 {
-    if current_num_threads() <= 1 || !in_simulation() {
+    if current_num_threads() <= 1 || !in_simulation() || SECTIONS_IN_FLIGHT.load(StdOrdering::Relaxed) > 0 {
         let ra = a();
         let rb = b();
         return (ra, rb);
     }
+    SECTIONS_IN_FLIGHT.fetch_add(1, StdOrdering::Relaxed);
+    let _g = SectionGuard;
     probe("rayon_joins", 1);
     let mut rb = None;
     let ra = shuttle::thread::scope(|s| {
